@@ -2200,7 +2200,7 @@ async fn process_incoming_command(
             Command::UnsubscribeLsAsync(transaction_id, callback) => {
                 callbacks.subls.remove(&transaction_id);
                 callback.send(transaction_id).ok();
-                Some(CM::Unsubscribe(Unsubscribe { transaction_id }))
+                Some(CM::UnsubscribeLs(UnsubscribeLs { transaction_id }))
             }
             Command::Lock(key, callback) => {
                 callbacks.ack.insert(transaction_id, callback);
